@@ -1305,6 +1305,95 @@ func run(ctx *Ctx) *Result {
 				}
 			}
 		}
+		if prop == "C14" {
+			// F-C14g (asacfg found it; same predicate here): the members of an UNSHARED object-group (one access-list line uses
+			// it, on the device and in the result) are changed in place before the lines around it; a packet that gets the same
+			// verdict before and after the run gets another one in between.  `model_predicts`: the MODEL's script (model of the
+			// unchanged code) edits that group in place (`grp:eq:edit-in-place`) and prints a line command for the access list that
+			// references the group AFTER the member commands.
+			fl := splitScript(out)
+			mode := ""
+		c14g:
+			for k, cmd := range fl {
+				if k >= len(states) {
+					break
+				}
+				if strings.HasPrefix(cmd, "object-group network ") {
+					mode = strings.Fields(cmd)[2]
+					continue
+				}
+				if !(strings.HasPrefix(cmd, "network-object ") || strings.HasPrefix(cmd, "no network-object ")) {
+					mode = ""
+					continue
+				}
+				if _, existed := c.dev.Groups[mode]; !existed || groupRefCount(c.dev, mode) > 1 || groupRefCount(final, mode) > 1 {
+					continue
+				}
+				res.Count("c14-unshared-group-edit-states")
+				for _, key := range c.spoc.BOrder {
+					if _, ok := c.dev.Bind[key]; !ok {
+						continue
+					}
+					for _, p := range pktUniverse {
+						v0, v1 := c.dev.verdict(key, p), final.verdict(key, p)
+						if v0 != v1 || v0 < 0 {
+							continue
+						}
+						if v := states[k].verdict(key, p); v != v0 {
+							// the model's prediction, read off the model's own script
+							mp := strings.Contains(firstF["hits"], "grp:eq:edit-in-place")
+							var ml []string
+							for _, l := range strings.Split(firstF["script"], "|") {
+								ml = append(ml, strings.Split(l, "\\N ")...)
+							}
+							seenEdit, lineAfter := false, false
+							mmode := ""
+							aclOfGroup := ""
+							for n, ls := range c.dev.ACLs {
+								for _, l := range ls {
+									if contains(refsOf(l), mode) {
+										aclOfGroup = n
+									}
+								}
+							}
+							for _, mc := range ml {
+								switch {
+								case strings.HasPrefix(mc, "object-group network "):
+									mmode = strings.Fields(mc)[2]
+								case strings.HasPrefix(mc, "network-object ") || strings.HasPrefix(mc, "no network-object "):
+									if mmode == mode {
+										seenEdit = true
+									}
+								default:
+									mmode = ""
+									if m := aclCmdRE.FindStringSubmatch(mc); m != nil && m[2] == aclOfGroup && seenEdit {
+										lineAfter = true
+									}
+								}
+							}
+							// what follows in the REAL script: a line command of the access list, the edit of another group, or only
+							// further member commands of this group
+							followed := "member_commands_of_the_same_group_only"
+							for _, later := range fl[k+1:] {
+								if m := aclCmdRE.FindStringSubmatch(later); m != nil && m[2] == aclOfGroup {
+									followed = "line_command_of_that_access_list"
+									break
+								}
+								if strings.HasPrefix(later, "object-group network ") && strings.Fields(later)[2] != mode {
+									followed = "edit_of_another_group"
+									break
+								}
+							}
+							_ = lineAfter
+							res.Fail(map[string]any{"pred": "unshared_group_members_changed_before_lines", "backend": "asa",
+								"model_predicts": mp && seenEdit, "followed_by": followed},
+								fmt.Sprintf("after command %d (%s, group %s) packet %v at %s gets verdict %d, before and after the run it is %d", k, cmd, mode, p, key, v, v0), c)
+							break c14g
+						}
+					}
+				}
+			}
+		}
 		if prop == "C10" {
 			for k, st := range states[:max(len(states)-1, 0)] {
 				res.Count("resume-cuts")
@@ -1366,6 +1455,11 @@ func corpus() []cfgCase {
 	mk := func(dev, spoc string) cfgCase { return cfgCase{Dev: dev, Spoc: spoc, Note: []string{"corpus"}} }
 	intf := "interface Ethernet0/0\n nameif inside\n"
 	return []cfgCase{
+		// F-C14g: members of an unshared group changed in place before the line insert
+		mk("interface Ethernet0/0\n nameif dmz\n"+"object-group network g2\n network-object 10.3.3.0 255.255.255.0\n network-object host 10.5.5.5\n"+
+			"access-list dmz_in extended permit udp object-group g2 any4\naccess-group dmz_in in interface dmz\n",
+			"object-group network g2\n network-object 10.3.3.0 255.255.255.0\n network-object host 10.5.5.5\n network-object 10.6.0.0 255.255.0.0\n"+
+				"access-list dmz_in extended deny ip any4 host 10.1.1.2\naccess-list dmz_in extended permit udp object-group g2 any4\naccess-group dmz_in in interface dmz\n"),
 		// F-C01b: two identical groups on the device, one left over
 		mk(intf+"object-group network oldg0\n network-object host 10.1.1.1\nobject-group network g0-DRC-7\n network-object host 10.1.1.1\n"+
 			"access-list inside_in extended permit tcp object-group oldg0 any4 eq 22\naccess-group inside_in in interface inside\n",
